@@ -362,8 +362,10 @@ var srv *server
 // classes that already cost a 20 s CPU budget in this process are not run again
 var expensive = map[string]int{}
 
-// classes (decoder, field, hostile value) that were fatal or allocated beyond the bound
+// (decoder, field) pairs that were fatal or allocated beyond the bound, with their count
 var costly = map[string]int{}
+
+const costlyLimit = 3
 
 func hostile(id string, e *enc, r *vlib.Rand) {
 	d := &decoders[e.Dec]
@@ -379,10 +381,11 @@ func hostile(id string, e *enc, r *vlib.Rand) {
 			c.Count("corruptions_skipped_after_nonterminating_same_field", 1)
 			continue
 		}
-		if costly[cls+"|"+m.what] >= 3 {
-			// the same decoder, field and hostile value already produced a giant allocation or a
-			// process-fatal event three times in this process: reported, not repeated
-			c.Count("corruptions_skipped_same_class_already_violating", 1)
+		if costly[cls] >= costlyLimit {
+			// this decoder+field already produced a beyond-the-bound allocation or a
+			// process-fatal event costlyLimit times in this process: the finding is reported;
+			// repeating it hundreds of times would only burn the budget of a broken tree
+			c.Count("corruptions_skipped_field_already_violating", 1)
 			continue
 		}
 		reqs = append(reqs, req{e.Dec, m.b})
@@ -413,7 +416,7 @@ func hostile(id string, e *enc, r *vlib.Rand) {
 			switch rs.died.Kind {
 			case "fatal":
 				c.Count("process_fatal_decodes", 1)
-				costly[d.Name+"|"+m.where+"|"+m.what]++
+				costly[d.Name+"|"+m.where]++
 				fail(d.Name+":fatal@"+m.where, fmt.Sprintf("decoding a %d-byte input with a hostile %s (%s) ended the process: %s", len(m.b), m.where, m.what, rs.died.Reason),
 					detail(map[string]interface{}{"stderr": rs.died.Stderr}))
 			case "nonterminating":
@@ -435,7 +438,7 @@ func hostile(id string, e *enc, r *vlib.Rand) {
 		c.Max("max_cpu_ms_one_decode", rs.m.CPU.Milliseconds())
 		if rs.m.Alloc > bound {
 			c.Count("alloc_bound_exceeded", 1)
-			costly[d.Name+"|"+m.where+"|"+m.what]++
+			costly[d.Name+"|"+m.where]++
 			fail(d.Name+":alloc-from-count@"+m.where,
 				fmt.Sprintf("decoding a %d-byte input with a hostile %s (%s) allocated %d bytes (bound 64·len+1 MiB = %d)", len(m.b), m.where, m.what, rs.m.Alloc, bound),
 				detail(map[string]interface{}{"allocated": rs.m.Alloc, "bound": bound, "panicked": rs.m.Panicked}))
